@@ -16,6 +16,8 @@ CLAIMED = {
          TRUST + " Not decided: that other connections keep receiving exact replies (a corollary of no-panic plus per-connection state, not explored), disconnect timing, the bundled example store as handler (claimed separately when its contracts discharge).", TECH, "DESIGN.md §9 C07"),
  "C08": ("Gate: the dynamic call of an executor in executeCommand is reachable only under 'conn.authrized || upper(cmd) == AUTH' (a precondition of the generic executor contract checked at the call site); new connections start unauthorized; every executor, handleMessage and receive preserve 'authrized gained ==> an AUTH succeeded' (ghost authed), receive keeps 'authrized ==> !passwordRequired || authed'; Auth sets the flag only after Authenticate returned true, leaves it unchanged on error, and stores the presented password as present even when empty.",
          TRUST + " Assumed: the authenticator chain installed at Start compares the presented password with the configured one (auth package contracts pending); interleavings of several connections are covered by the frame (only the issuing Conn is written), not explored.", TECH, "DESIGN.md §9 C08"),
+ "C09": ("Decided clauses: NewTLSConfigFrom returns a config with ClientAuth == RequireAndVerifyClientCert, ClientCAs set and MinVersion >= TLS1.2; CertificateAuthenticator accepts only if the FIRST (leaf) peer certificate carries the configured common name; receive enters its command loop for a TLS connection only if no authenticator refused (entry assertion) and otherwise returns with the socket closed before any parse; the accept loops (serve, tlsServe) return an error only when Accept failed and keep 'every accepted socket is closed or handed to a connection goroutine' (ghost pending == 0) across a failed handshake.",
+         TRUST + " Trusted: crypto/tls enforces the configuration and reports the verified chain leaf-first. NOT decided: a stalled or abandoned handshake blocking the accept loop (time/concurrency), and that both listeners keep serving beyond the loop-exit obligation.", TECH, "DESIGN.md §9 C09"),
  "C11": ("Parser functions are proved against a ghost stream with an arbitrary end position S_end: a bulk body is returned only if all num+2 bytes were delivered, an array only if every element was (end of stream inside an array is an error), so a request cut at any byte offset is never returned as a value; receive calls handleMessage only with a value Next returned without error, and at every exit the socket is closed and the registry no larger than on entry.",
          TRUST + " Line-type values at end of stream without CRLF are accepted by the parser (the existing tests require it); valid client requests end with a bulk body, for which completeness is proved.", TECH, "DESIGN.md §9 C11"),
  "C13": ("Frame obligations: every executor, executeCommand and handleMessage are proved to write no Conn field except id/authrized/username/password/hasPassword of the conn parameter (and argument cursors, string maps, ghost logs); newConnWith returns a fresh object with id 0, unauthorized, empty credentials; Database/SetDatabase/Select read and write exactly the receiver's field.",
